@@ -419,6 +419,19 @@ def execute(case) -> Outcome:
     except Exception as exc:
         vio.append(V(P, "request-raises", f"re-using a header list object raised {type(exc).__name__}: {exc}", exc=type(exc).__name__))
 
+    # ---- law 9: the origin follows the URL's components: a URL object whose public scheme / host / port attributes are reassigned (a caller that
+    #      re-targets one URL object) has the origin of a URL built from those components, also when its origin had been read before
+    try:
+        u3 = httpcore.URL(url_s)
+        u4 = httpcore.URL(url2)
+        first = u3.origin
+        u3.scheme, u3.host, u3.port = u4.scheme, u4.host, u4.port
+        if not (u3.origin == u4.origin) or (u3.origin.scheme, u3.origin.host, u3.origin.port) != (u4.origin.scheme, u4.origin.host, u4.origin.port):
+            vio.append(V(P, "origin-stale", f"URL({url_s!r}) with scheme/host/port reassigned to those of {url2!r} (after its origin {first!r} had been read) "
+                         f"has origin {u3.origin!r}, expected {u4.origin!r}", variant=v))
+    except Exception as exc:
+        vio.append(V(P, "origin-raises", f"reassigning the components of URL({url_s!r}) raised {type(exc).__name__}: {exc}", exc=type(exc).__name__))
+
     return Outcome(vio, tags, nontrivial, info={"url": url_s, "parsed": [x if not isinstance(x, bytes) else x.decode() for x in got]})
 
 
@@ -428,6 +441,7 @@ RULE = ("URLs are assembled from RFC 3986 productions (scheme in http/https/ws/w
         "given as str, bytes or explicit components, paired with a second URL differing in exactly one origin component, "
         "a header container (list of str/bytes/mixed pairs or dict, with forced duplicates and optional caller "
         "Host/Content-Length/Transfer-Encoding) and a content kind (None, bytes, empty bytes, iterator). "
+        "Law 9: a URL object whose scheme / host / port attributes are reassigned to those of the second URL has that URL's origin. "
         "A case is non-trivial if the URL has params, a non-empty query, a fragment, userinfo, an IPv6 host, an explicit "
         "port or an upper-case host letter; distinct = distinct generated case.")
 
